@@ -714,6 +714,17 @@ def run(p: Program, rep: Report, tier: str) -> None:
         rep.undecide("R2.2", "no os.open call found in the response modules (the ASGI sender's descriptor is opened in an idiom outside the table)")
     rep.require_instances("R2.2", 13)
 
+    # ... and the ASGI __call__ reads BOTH Range and If-Range whatever their order in scope["headers"]: a scan that stops at the first of
+    # them never sees the other one (Range honoured although a later If-Range does not match)
+    from .hdr_common import multi_header_scan_breaks
+    acall = p.cls("baize.asgi.responses:FileResponse").methods.get("__call__")
+    if acall is not None:
+        for f_ in with_helpers_(p, acall):
+            for lp_, leave_, names_ in multi_header_scan_breaks(f_):
+                rep.violation("R2.3", construct(f_, text=f"header scan for {names_} left early"), where(f_, leave_),
+                              f"asgi: the scan of scope['headers'] for {names_} is left by `{ast.unparse(leave_)}` as soon as one of them was seen: a header that the client sends after it "
+                              "(If-Range after Range) is never read, so a Range request is answered 206 although its If-Range validator is stale", positive=True)
+
     # ---------------------------------------------------------------- R2.3 / R2.4 __call__
     jr = mixin.methods.get("judge_if_range")
     gch = mixin.methods.get("generate_common_headers")
